@@ -21,6 +21,8 @@ import YashModel.Variable.Frame
 import YashModel.Variable.FrameG
 import YashModel.Variable.BuiltinGlue
 import YashModel.Variable.RoPaths
+import YashModel.Variable.RoHistory
+import YashModel.Variable.TypesetBridge
 namespace YashModel.Variable
 
 /-! ### the normal form is an invariant -/
@@ -1306,6 +1308,152 @@ example : (((VariableSet.new.run roOps).step (.assign "x" .global (.scalar "2") 
 example : (((VariableSet.new.run roOps).step (.assign "x" .global (.scalar "2") none)).1.get "x")
     = some { value := some (.scalar "1"), exported := true, readOnly := some 7 } := by decide
 example : ((VariableSet.new.run roOps).unset "x" .global).2 = .readOnly 7 := by decide
+
+/-- ★ `readonly_instance_lifetime` — the single all-histories statement (one induction over the
+    operation list, `run_keepsReg`).  Take any reachable set, any read-only instance `e` of any name in
+    a *regular* context of it (base context, a function's context), visible or hidden, and any history
+    over the whole operation alphabet (push regular/volatile, pop, get-or-create in each scope followed
+    by assign / export / make read-only / set quirk, unset in each scope, `set --`):
+    (1) if the history does not pop the context that holds `e` (`survives`, a function of the pushes
+    and pops only), then at the end there is a read-only instance of the name **in that same context**
+    with the same value and the same read-only location — it was never modified, removed or moved;
+    (2) the exception is exact: the pop of the context that holds it does remove it (nothing of that
+    context is left).  (A read-only instance in a *volatile* context is a copy of the one below it and
+    may be merged back into it by `get_or_new`: `readonly_immutable`.) -/
+theorem readonly_instance_lifetime (ops0 ops : List Op) (n : Name) (e : VIC)
+    (he : e ∈ (VariableSet.new.run ops0).all n) (hro : e.var.isReadOnly = true)
+    (hreg : isVolatileAt (VariableSet.new.run ops0).contexts e.ctx = false) :
+    (survives e.ctx (VariableSet.new.run ops0).contexts.length ops = true →
+      ∃ e' ∈ ((VariableSet.new.run ops0).run ops).all n,
+        e'.ctx = e.ctx ∧ e'.var.isReadOnly = true ∧ e'.var.value = e.var.value ∧ e'.var.readOnly = e.var.readOnly) ∧
+    ((VariableSet.new.run ops0).contexts.length = e.ctx + 1 → 0 < e.ctx →
+      ∀ e' ∈ ((VariableSet.new.run ops0).step .pop).1.all n, e'.ctx < e.ctx) := by
+  have hG : Good (VariableSet.new.run ops0) := run_shadow norm_init (fun _ => trivial) ops0
+  constructor
+  · intro hsv
+    obtain ⟨e', he', h1, h2, h3, _⟩ := run_keepsReg ops _ hG n e he hro hreg hsv
+    exact ⟨e', he', h1, h2, h3.1, h3.2⟩
+  · intro hlen hpos e' he'
+    have hN := (step_abs hG.1 Op.pop).2.2
+    have hb := hN.bounded n e' he'
+    have hl : ((VariableSet.new.run ops0).step .pop).1.contexts.length = e.ctx := by
+      simp only [VariableSet.step, VariableSet.popContext]
+      rw [if_neg (by omega)]
+      simp [hlen]
+    omega
+
+/-- ★ `readonly_global_survives_every_history`: a read-only variable in the base context survives
+    **every** history — whatever is pushed, popped, assigned, exported, unset, declared in whatever
+    scope afterwards, the base context still holds a read-only instance of the name with the same
+    value and the same read-only location -/
+theorem readonly_global_survives_every_history (ops0 ops : List Op) (n : Name) (e : VIC)
+    (he : e ∈ (VariableSet.new.run ops0).all n) (hro : e.var.isReadOnly = true) (h0 : e.ctx = 0) :
+    ∃ e' ∈ ((VariableSet.new.run ops0).run ops).all n,
+      e'.ctx = 0 ∧ e'.var.isReadOnly = true ∧ e'.var.value = e.var.value ∧ e'.var.readOnly = e.var.readOnly := by
+  have hG : Good (VariableSet.new.run ops0) := run_shadow norm_init (fun _ => trivial) ops0
+  have hreg : isVolatileAt (VariableSet.new.run ops0).contexts e.ctx = false := by
+    rw [h0]; exact isVolatileAt_zero hG.1
+  obtain ⟨e', he', h1, h2, h3⟩ :=
+    (readonly_instance_lifetime ops0 ops n e he hro hreg).1 (by rw [h0]; exact survives_base _ _)
+  exact ⟨e', he', h1.trans h0, h2, h3⟩
+
+/-- non-vacuity: `readonly x=1` at top level, then a function call with a temporary `x`, a local `x`,
+    an attempt to assign, unset and re-declare it, a nested command, and the returns -/
+example : ∃ e' ∈ ((VariableSet.new.run [.assign "x" .global (.scalar "1") none, .readonly "x" .global 7]).run
+      (functionCmd [("x", .scalar "T")] ["a"]
+        [.assign "x" .loc (.scalar "2") none, .assign "x" .global (.scalar "3") none, .unset "x" .global,
+         .push .volatile, .export "x" .volatile true, .readonly "x" .loc 9, .pop])).all "x",
+    e'.ctx = 0 ∧ e'.var.value = some (.scalar "1") ∧ e'.var.readOnly = some 7 := by decide
+
+/-- ★ `lookup_over_histories`: "looking up a variable returns the value from the innermost visible
+    scope", over whole histories: after every history of the operation alphabet from the initial set,
+    `get` (and `get_scoped` in every scope) of the Rust structure is the lookup — topmost context that
+    defines the name — in the stack of maps the same history builds -/
+theorem lookup_over_histories (ops : List Op) (n : Name) :
+    (VariableSet.new.run ops).get n = lookup (SSet.run SSet.new ops) n ∧
+    ∀ sc, (VariableSet.new.run ops).getScoped n sc = (SSet.run SSet.new ops).getScoped n sc := by
+  have h0 : abs VariableSet.new = SSet.new := by simp [abs, VariableSet.new, absRev, SSet.new, cellAt]
+  obtain ⟨ha, hN⟩ := run_abs_from norm_init ops
+  rw [h0] at ha
+  exact ⟨by rw [get_abs hN, ha], fun sc => by rw [getScoped_abs hN, ha]⟩
+
+/-- ★ `cd_getopts_tables_match`: the variable writes of `cd` (OLDPWD then PWD, `Global` scope, both always
+    attempted, exit status of a refusal) and of `getopts` (option variable, OPTARG assigned or unset,
+    OPTIND, `Global` scope, in that order) as extracted from cd.rs, cd/assign.rs and getopts/report.rs
+    on every run are what the transcriptions `cdAssign` / `cdStatus` / `getoptsReportOps` do -/
+theorem cd_getopts_tables_match : cdGetoptsTablesOk = true := by decide
+
+/-- ★ `cd_getopts_keep_readonly`: in every reachable set `cd` and `getopts` keep every read-only
+    instance (value and mark); when `PWD` (`OLDPWD`) is read-only `cd` still writes the other one and
+    reports the error; `getopts` stops at the first refused variable -/
+theorem cd_getopts_keep_readonly (ops : List Op) :
+    let s := VariableSet.new.run ops
+    (∀ newPwd, KeepsAll s (cdAssign ifaceM s newPwd).1) ∧
+    (∀ name value optarg optind, KeepsAll s (runOps ifaceM s (getoptsReportOps name value optarg optind)).1) := by
+  intro s
+  have hG : Good s := run_shadow norm_init (fun _ => trivial) ops
+  refine ⟨fun newPwd => (foldErrors_keeps _ (fun s p hs => ?_) _ s 0 hG).1, fun name value optarg optind => ?_⟩
+  · unfold cdSetVariable
+    have hstep : ∀ s op, ifaceM.step s op = s.step op := fun _ _ => rfl
+    simp only [hstep]
+    have h1 := step_keepsAll hs (.assign p.1 .global (.scalar p.2) none) (by simp)
+    cases hr : s.step (.assign p.1 .global (.scalar p.2) none) with
+    | mk s1 r =>
+      rw [hr] at h1
+      have h2 := step_keepsAll h1.2 (.export p.1 .global true) (by simp)
+      cases r <;> first | exact h1 | exact ⟨keepsAll_trans h1.1 h2.1, h2.2⟩
+  · refine (runOps_keeps _ s hG ?_).1
+    intro op hop
+    simp only [getoptsReportOps, List.mem_cons, List.not_mem_nil, or_false] at hop
+    rcases hop with rfl | rfl | rfl
+    · simp
+    · cases optarg <;> simp
+    · simp
+
+/-- non-vacuity: `cd /` with a read-only `PWD=0`: one error, `OLDPWD` is still written (and exported) -/
+example : (cdAssign ifaceM (VariableSet.new.run [.assign "PWD" .global (.scalar "0") none, .readonly "PWD" .global 1]) "/").2 = 1 ∧
+    ((cdAssign ifaceM (VariableSet.new.run [.assign "PWD" .global (.scalar "0") none, .readonly "PWD" .global 1]) "/").1.get "OLDPWD")
+      = some { value := some (.scalar "0"), exported := true } := by decide
+
+/-- ★ `c20_parse_feeds_builtin_model`: the connection to C20's transcription of typeset's own `parse` and
+    `interpret` (`YashModel.Args.Typeset`, theorem `typeset_parse_is_read_of_canonical` there says what
+    `parse` yields for every spelling — clusters `-gx`, long options, `+x`).  Whenever C20's `parse` yields
+    occurrences `os` of the set-variable options (`-g -r -x -X`, any number, any order, any spelling) and
+    operands: (1) C20's `run` (parse + interpret, `portable` off) is the command `SetVariables` with the
+    attribute list and the scope flag of its scan; (2) that attribute list and flag are exactly what
+    `BuiltinModel.interpretLoop` computes from the same occurrences; hence (3) `typesetMain` — what the
+    statements `T`/`L`/`G`/`TP` run and what `script_typeset_is_execute`, `readonly_kept_on_every_path`
+    speak about — is `SetVariables::execute` on precisely the record C20's `interpret` hands over. -/
+theorem c20_parse_feeds_builtin_model (specs : List Args.Typeset.TSpec) (ln : Bool) (args : List Args.Typeset.Str)
+    (os : List Args.Typeset.Occ) (operands : List Args.Typeset.Str)
+    (hp : Args.Typeset.parse specs ln args = .ok (os, operands)) (hos : ∀ o ∈ os, SetSpec o.spec)
+    (hne : operands ≠ []) :
+    Args.Typeset.run specs ln false args
+      = .cmd (.setVariables operands ((Args.Typeset.scan os).attrs.map (fun e => (e.2.1, e.2.2)))
+          (Args.Typeset.scan os).global.isSome) ∧
+    (interpretLoop (os.map occOf)).attrs = (Args.Typeset.scan os).attrs.map (fun e => (attrOf e.2.1, e.2.2)) ∧
+    (interpretLoop (os.map occOf)).global = (Args.Typeset.scan os).global.isSome ∧
+    ∀ {σ} (I : Iface σ) (s : σ), typesetMain I (os.map occOf) (operands.map String.ofList) s
+      = SetVariables.execute I ⟨operands.map String.ofList,
+          (Args.Typeset.scan os).attrs.map (fun e => (attrOf e.2.1, e.2.2)),
+          if (Args.Typeset.scan os).global.isSome then .global else .loc⟩ s := by
+  obtain ⟨h1, h2, h3, h4, h5⟩ := scanFrom_interpret os hos {} {} 0 rfl rfl rfl rfl rfl
+  have hne' : operands.isEmpty = false := by cases operands <;> simp_all
+  refine ⟨?_, h4, h5, ?_⟩
+  · have e1 : (Args.Typeset.scan os).foreign = none := h3
+    have e2 : (Args.Typeset.scan os).print = none := h2
+    have e3 : (Args.Typeset.scan os).functions = none := h1
+    simp [Args.Typeset.run, hp, Args.Typeset.interpret, e1, e2, e3, hne']
+  · intro σ I s
+    have a4 : (interpretLoop (os.map occOf)).attrs = _ := h4
+    have a5 : (interpretLoop (os.map occOf)).global = _ := h5
+    simp only [typesetMain, interpretScope, a4, a5]
+    rfl
+
+/-- non-vacuity: the occurrences C20's parser yields for `-gx +r -X` -/
+example : ∀ o ∈ [(⟨⟨'g', ['g'], none⟩, true⟩ : Args.Typeset.Occ), ⟨⟨'x', ['e'], some .export⟩, true⟩,
+    ⟨⟨'r', ['r'], some .readOnly⟩, false⟩, ⟨⟨'X', ['u'], none⟩, true⟩], SetSpec o.spec := by
+  intro o ho; simp at ho; rcases ho with rfl | rfl | rfl | rfl <;> simp [SetSpec]
 
 /-- ★ `nested_calls_params`: "a function's positional parameters vanish at return", for nested calls
     of any depth.  (1) Whatever the set a call starts in — hence at every nesting depth — the body
